@@ -9,6 +9,7 @@ import (
 	"regexp"
 	"sort"
 	"strings"
+	"verif/internal/gocheck"
 
 	"verif/internal/batch"
 	"verif/internal/cli"
@@ -208,11 +209,14 @@ func c18(ctx *Ctx) (*Outcome, error) {
 		}
 		{
 			// the base itself must be accepted, otherwise an injected fault proves nothing
-			br := cli.Run(ctx.Env, &cli.Inv{Files: []batch.File{{Path: "root.json", Data: jsonx.MarshalIndent(root.ToJSON())}}, Args: []string{"-p", "faulty", "-o", "out/gen.go", "root.json"}})
+			binv := &cli.Inv{Files: []batch.File{{Path: "root.json", Data: jsonx.MarshalIndent(root.ToJSON())}}, Args: []string{"-p", "faulty", "-o", "out/gen.go", "root.json"}}
+			br := cli.Run(ctx.Env, binv)
 			okBase := br.Proc.Exit == 0
 			br.Cleanup()
 			if !okBase {
 				basesRefused++
+				// a refused base is still a run: it goes through the all-runs oracle (clean diagnostic, no panic)
+				jobs = append(jobs, &c18job{class: "valid:base-refused", label: "fault-free base schema refused", inv: binv, outFile: "out/gen.go"})
 				continue
 			}
 		}
@@ -340,6 +344,32 @@ func c18(ctx *Ctx) (*Outcome, error) {
 			jobs = append(jobs, &c18job{class: "cli:" + fc.label, label: fc.label, inv: inv, must: fc.must, outFile: "o.go"})
 		}
 	}
+	// 4. fault-free corpus: every feature of the schema generator x random options, and an enumerated family of
+	// composition shapes (1-2 branches of every kind at every position); all-runs oracle (status 0 with output, or a
+	// diagnostic; never a panic or hang)
+	for i := 0; i < ctx.N(300, 6000); i++ {
+		r := sg.NewRng(ctx.Seed, fmt.Sprintf("C18-valid-%d", i))
+		o := sg.Opts{MaxDepth: 3, PDefault: 0.3, PNullable: 0.3, PAddProps: 0.3, AnyBranch: true, AddPropsTrue: i%2 == 0, NullType: i%3 == 0, RootKinds: i%4 == 0, Hazard: i%5 == 0, IntLimits: true,
+			W: map[string]float64{"compose": 3, "enum": 2, "map": 1.5, "ref": 2}}
+		if i%6 == 0 {
+			o.Names, o.Titles = c01Names, c01Titles
+		}
+		root := sg.NewGen(r, o).Root()
+		name, data := "root.json", jsonx.MarshalIndent(root.ToJSON())
+		if i%7 == 0 {
+			name, data = "root.yaml", sg.ToYAML(root.ToJSON(), sg.YAMLBlock)
+		}
+		args := append([]string{"-p", "valid", "-o", "out/gen.go"}, RandArgs(r, nil)...)
+		jobs = append(jobs, &c18job{class: "valid:random", label: "fault-free random schema", outFile: "out/gen.go",
+			inv: &cli.Inv{Files: []batch.File{{Path: name, Data: data}}, Args: append(args, name)}})
+	}
+	for _, sh := range compositionShapes() {
+		for ai, extra := range [][]string{nil, {"--only-models"}, {"--extra-imports"}, {"--min-sized-ints", "--struct-name-from-title"}} {
+			args := append(append([]string{"-p", "valid", "-o", "out/gen.go"}, extra...), "shape.json")
+			jobs = append(jobs, &c18job{class: "valid:" + sh.class, label: fmt.Sprintf("%s (args %d)", sh.label, ai), outFile: "out/gen.go",
+				inv: &cli.Inv{Files: []batch.File{{Path: "shape.json", Data: []byte(sh.text)}}, Args: args}})
+		}
+	}
 	// pinned witnesses of recorded findings
 	for _, w := range c18Witnesses() {
 		jobs = append(jobs, w)
@@ -365,6 +395,14 @@ func c18(ctx *Ctx) (*Outcome, error) {
 			p = judgeFailing(r, j.outFile)
 		} else {
 			p = judgeAny(r)
+			if p == "" && r.Proc.Exit == 0 && !r.Proc.TimedOut && j.outFile != "" && strings.HasPrefix(j.class, "valid:") {
+				// status 0 means complete output: the file exists and is a whole Go file
+				if src := r.Out(j.outFile); len(src) == 0 {
+					p = "exit status 0 but the output file " + j.outFile + " is missing or empty"
+				} else if _, _, err := gocheck.ParseOnly(src); err != nil {
+					p = "exit status 0 but the output is not a complete Go file: " + err.Error()
+				}
+			}
 		}
 		results[i] = res{problem: p, proc: r.Proc, dir: dir, timed: r.Proc.TimedOut}
 		if p == "" {
@@ -441,7 +479,7 @@ func c18(ctx *Ctx) (*Outcome, error) {
 	o.Coverage = map[string]any{
 		"evaluations":           decided + inprocRuns + straceRuns,
 		"distinct_nontrivial":   len(classes),
-		"rule":                  "fault enumeration over real CLI runs in a sandbox directory whose output files are pre-seeded with sentinel bytes (tree snapshot before/after, stdout, stderr, exit status, rusage): (1) every fault kind {unknown type, $ref to missing definition / missing file / unsupported scheme / non-definition pointer / missing definition in another file / unparsable file, empty enum (typed and untyped), non-primitive enum values, integer enum with a string} injected at sampled positions {property, array items, definition, allOf branch, anyOf branch} at any depth of random valid schemas (JSON and YAML, file and stdout output); (2) byte-level faults (truncation, bit flip, byte deletion/insertion/duplication, random bytes, wrong keyword value type); (3) malformed flags and bad files; (4) the same inputs through DoFile+Sources in-process under recover; (5) strace syscall-fault injection on output writes; oracle for must-fail runs: non-zero exit, diagnostic on stderr, empty stdout, no file created/modified/removed, no panic/fatal/signal, CPU limit not hit; for all runs: no panic/hang and no output on failure; distinct_nontrivial = distinct (fault kind, position kind) classes",
+		"rule":                  "fault enumeration over real CLI runs in a sandbox directory whose output files are pre-seeded with sentinel bytes (tree snapshot before/after, stdout, stderr, exit status, rusage): (1) every fault kind {unknown type, $ref to missing definition / missing file / unsupported scheme / non-definition pointer / missing definition in another file / unparsable file, empty enum (typed and untyped), non-primitive enum values, integer enum with a string} injected at sampled positions {property, array items, definition, allOf branch, anyOf branch} at any depth of random valid schemas (JSON and YAML, file and stdout output); (2) byte-level faults (truncation, bit flip, byte deletion/insertion/duplication, random bytes, wrong keyword value type); (3) malformed flags and bad files; (3b) fault-free corpus through the all-runs oracle: random schemas over every generator feature x random options, and an enumerated family of allOf/anyOf/oneOf shapes (1-2 branches of 18 kinds incl. null elements x 9 positions x 4 option sets); (4) the same inputs through DoFile+Sources in-process under recover; (5) strace syscall-fault injection on output writes; oracle for must-fail runs: non-zero exit, diagnostic on stderr, empty stdout, no file created/modified/removed, no panic/fatal/signal, CPU limit not hit; for all runs: no panic/hang and no output on failure; distinct_nontrivial = distinct (fault kind, position kind) classes",
 		"samples":               samples,
 		"runs_by_fault":         byClass,
 		"must_fail_runs":        mustFail,
@@ -486,6 +524,59 @@ func pathStr(p []any) string {
 	return b.String()
 }
 
+type compShape struct{ class, label, text string }
+
+// compositionShapes enumerates allOf / anyOf / oneOf with one or two branches of every kind, at every position of a
+// schema document, including null elements (which are not schemas at all).
+func compositionShapes() []compShape {
+	branches := []struct{ name, text string }{
+		{"string", `{"type":"string","minLength":1}`},
+		{"integer", `{"type":"integer","minimum":1}`},
+		{"number", `{"type":"number"}`},
+		{"boolean", `{"type":"boolean"}`},
+		{"nulltype", `{"type":"null"}`},
+		{"object", `{"type":"object","properties":{"q":{"type":"string"}},"required":["q"]}`},
+		{"array", `{"type":"array","items":{"type":"integer"}}`},
+		{"enum", `{"enum":["a","b"]}`},
+		{"typed-enum", `{"type":"string","enum":["a","b"]}`},
+		{"ref-object", `{"$ref":"#/$defs/Obj"}`},
+		{"ref-prim", `{"$ref":"#/$defs/Prim"}`},
+		{"empty", `{}`},
+		{"true", `true`},
+		{"null-element", `null`},
+		{"nested-any", `{"anyOf":[{"type":"string"}]}`},
+		{"nested-null", `{"anyOf":[null]}`},
+		{"format", `{"type":"string","format":"date-time"}`},
+		{"multi-type", `{"type":["string","null"]}`},
+	}
+	defs := `"Obj":{"type":"object","properties":{"w":{"type":"integer"}}},"Prim":{"type":"string","maxLength":3}`
+	var out []compShape
+	for _, kw := range []string{"anyOf", "allOf", "oneOf"} {
+		for bi, b := range branches {
+			lists := []string{"[" + b.text + "]", "[" + b.text + "," + b.text + "]", "[" + branches[(bi+5)%len(branches)].text + "," + b.text + "]"}
+			for li, l := range lists {
+				comp := `{"` + kw + `":` + l + `}`
+				typed := `{"type":"object","` + kw + `":` + l + `}`
+				positions := []struct{ name, text string }{
+					{"property", `{"type":"object","properties":{"p":` + comp + `},"$defs":{` + defs + `}}`},
+					{"required-property", `{"type":"object","properties":{"p":` + comp + `},"required":["p"],"$defs":{` + defs + `}}`},
+					{"items", `{"type":"object","properties":{"p":{"type":"array","items":` + comp + `}},"$defs":{` + defs + `}}`},
+					{"definition", `{"type":"object","properties":{"p":{"$ref":"#/$defs/C"}},"$defs":{"C":` + comp + `,` + defs + `}}`},
+					{"unused-definition", `{"type":"object","$defs":{"C":` + comp + `,` + defs + `}}`},
+					{"typed-definition", `{"type":"object","properties":{"p":{"$ref":"#/$defs/C"}},"$defs":{"C":` + typed + `,` + defs + `}}`},
+					{"root", `{"` + kw + `":` + l + `,"$defs":{` + defs + `}}`},
+					{"additionalProperties", `{"type":"object","properties":{"k":{"type":"string"}},"additionalProperties":` + comp + `,"$defs":{` + defs + `}}`},
+					{"branch-property", `{"type":"object","properties":{"p":{"allOf":[{"type":"object","properties":{"in":` + comp + `}}]}},"$defs":{` + defs + `}}`},
+				}
+				for _, pos := range positions {
+					out = append(out, compShape{class: "shape:" + kw + ":" + b.name + "@" + pos.name, label: fmt.Sprintf("%s %s list %d at %s", kw, b.name, li, pos.name), text: pos.text})
+				}
+			}
+		}
+	}
+	return out
+}
+
 // c18Witnesses are pinned inputs of recorded findings.
 func c18Witnesses() []*c18job {
 	mk := func(sig, label, schema string) *c18job {
@@ -497,6 +588,8 @@ func c18Witnesses() []*c18job {
 		mk("", "mixed enum with a later non-primitive value (fixed 9319e85)", `{"type":"object","properties":{"e":{"enum":["a",1,{"x":1}]}}}`),
 		mk("", "null property schema (fixed)", `{"type":"object","properties":{"e":null}}`),
 		mk("", "null definition (fixed)", `{"type":"object","$defs":{"X":null}}`),
+		{class: "witness:null-anyof-definition", label: "null anyOf elements in a definition (fixed c5dfc66)", outFile: "o.go",
+			inv: &cli.Inv{Files: []batch.File{{Path: "w.json", Data: []byte(`{"type":"object","properties":{"x":{"$ref":"#/$defs/D"}},"$defs":{"D":{"anyOf":[null,null]},"E":{"allOf":[{"type":"string"},null]},"F":{"anyOf":[{"anyOf":[null]}]}}}`)}}, Args: []string{"-p", "w", "-o", "o.go", "w.json"}}},
 		mk("", "null anyOf element (fixed)", `{"type":"object","properties":{"a":{"anyOf":[{"type":"object","properties":{"q":{"type":"string"}}},null]}}}`),
 	}
 }
